@@ -545,6 +545,87 @@ func checkC07(r *Result) {
 		}
 		r.check(same, "WINDOW", "rotation happens exactly in the block in which the current round closes", "x/oracle/keeper/cycle_list.go", fmt.Sprintf("keep current query while %s ; aggregate when %s", rotRel, aggRel))
 	}
+	// the "this round is over" tests that renew a round (new id or new window) agree with the aggregation relation: a
+	// round is renewed exactly when it is (or would have been) aggregated at the end of this block
+	if aggRel != nil {
+		for _, spec := range [][2]string{
+			{"(x/oracle/keeper.Keeper).HandleBridgeDepositDirectReveal", "a deposit round is renewed"},
+			{"(x/oracle/keeper.Keeper).RotateQueries", "a tipped cycle-list round gets a new window"},
+		} {
+			fn := need(spec[0])
+			if fn == nil {
+				continue
+			}
+			tmw := NewTermer()
+			n, same := 0, true
+			var got []string
+			for _, b := range fn.Blocks {
+				iff, ok := b.Instrs[len(b.Instrs)-1].(*ssa.If)
+				if !ok {
+					continue
+				}
+				rel, _ := Cond(tmw.Of(iff.Cond))
+				w, ok := asWindowRel(rel)
+				if !ok || w.op != "<=" {
+					continue // the strict tests are the admission / keep-current tests compared above
+				}
+				n++
+				got = append(got, w.String())
+				for _, E := range dom {
+					for _, h := range dom {
+						if w.eval(E, h) != aggRel.eval(E, h) {
+							same = false
+						}
+					}
+				}
+			}
+			want := map[string]int{"(x/oracle/keeper.Keeper).HandleBridgeDepositDirectReveal": 2, "(x/oracle/keeper.Keeper).RotateQueries": 1}[spec[0]]
+			r.check(same && n == want, "WINDOW", spec[0]+" # "+spec[1]+" exactly when the round is aggregated", P.Pos(fn.Pos()), fmt.Sprintf("%d renewal tests %v ; aggregate when %s", n, got, aggRel))
+		}
+	}
+	// a new window always ends at (current height + the spec's block window)
+	{
+		tmw := NewTermer()
+		n := 0
+		for _, fn := range P.RepoFuncs {
+			if fn.Pkg == nil || !strings.HasSuffix(fn.Pkg.Pkg.Path(), "/x/oracle/keeper") {
+				continue
+			}
+			for _, b := range fn.Blocks {
+				for _, in := range b.Instrs {
+					st, ok := in.(*ssa.Store)
+					if !ok {
+						continue
+					}
+					fa, ok := st.Addr.(*ssa.FieldAddr)
+					if !ok || fieldName(fa.X.Type(), fa.Field) != "x/oracle/types.QueryMeta.Expiration" {
+						continue
+					}
+					n++
+					v := tmw.Of(st.Val)
+					// the window of a freshly built query meta may be the constant stored as its block window in the same literal
+					winConst := ""
+					for _, b2 := range fn.Blocks {
+						for _, in2 := range b2.Instrs {
+							if st2, ok := in2.(*ssa.Store); ok {
+								if fa2, ok := st2.Addr.(*ssa.FieldAddr); ok && fa2.X == fa.X && fieldName(fa2.X.Type(), fa2.Field) == "x/oracle/types.QueryMeta.RegistrySpecBlockWindow" {
+									if t := tmw.Of(st2.Val); strings.HasPrefix(t.Op, "const:") {
+										winConst = t.Op
+									}
+								}
+							}
+						}
+					}
+					isWin := func(t *Term) bool {
+						return t.Contains("RegistrySpecBlockWindow") || (winConst != "" && t.Op == winConst)
+					}
+					okV := v.Op == "+" && len(v.Args) == 2 && ((v.Args[0].Contains("BlockHeight") && isWin(v.Args[1])) || (v.Args[1].Contains("BlockHeight") && isWin(v.Args[0])))
+					r.check(okV, "WINDOW", FuncName(TopFunc(fn))+" # a window that is (re)opened ends at height + block window", P.Pos(st.Pos()), clip(v.String(), 160))
+				}
+			}
+		}
+		r.check(n >= 5, "WINDOW", "stores of QueryMeta.Expiration in the oracle keeper", "-", fmt.Sprint(n))
+	}
 	// ---- TIP-CARRY
 	if co := need("(x/oracle/keeper.Keeper).ClearOldqueries"); co != nil {
 		for _, fn := range withClosures(co) {
